@@ -116,7 +116,7 @@ ShapeDone(e) ==
                    ELSE IF exe[p][i]
                         THEN (IF IsLocal(p) THEN LocalStatus(pre[p][i] = olds[p][i])
                               ELSE WireStatus(pre[p][i] = olds[p][i]))
-                        ELSE IF IsLocal(p) /\ Len(e.st) > 0 /\ \A j \in Idx(p) : ~exe[p][j] /\ e.refs[C(p)[j].r] = C(p)[j].new
+                        ELSE IF IsLocal(p) /\ \A j \in Idx(p) : ~exe[p][j] /\ C(p)[j].new # 0 /\ C(p)[j].new = olds[p][j]
                              THEN "ok"      \* nothing to do: early return
                              ELSE "ng"
     IN {<<"Status", p, i>> : i \in {j \in Idx(p) : e.st[j] # want(j)}}
